@@ -948,10 +948,16 @@ class Stagehand:
                 ah._parse_userauth_request = swallow
                 ah._parse_userauth_info_response = swallow
                 call = {"none": "auth_none", "password": "auth_password", "publickey": "auth_publickey",
-                        "kbdint": "auth_interactive"}[method]
+                        "kbdint": "auth_interactive", "password-kbdint": "auth_password"}[method]
                 pair.victim_api(call)
                 if not pair.wait_attacker_got(5 if stage == "service" else 50):
                     raise RuntimeError("client sent no %s" % ("SERVICE_REQUEST" if stage == "service" else "USERAUTH_REQUEST"))
+                if stage == "userauth" and method == "password-kbdint":
+                    # refuse the password request, leaving keyboard-interactive: auth_password() falls back to
+                    # auth_interactive() (new AuthHandler, new SERVICE_REQUEST answered by the real server, new request)
+                    pair.send(51, w_str("keyboard-interactive") + b"\x00")
+                    if not pair.wait_attacker_got(50, count=2):
+                        raise RuntimeError("auth_password did not fall back to keyboard-interactive")
             if stage == "authed":
                 v.auth_password("u", "pw")
                 pair.ch = v.open_session(timeout=8.0)
@@ -1131,9 +1137,15 @@ def run_slice(args):
     out = []
     hands = {}
     try:
-        for (i, rep) in jobs:
-            if deadline and time.time() > deadline:
-                break
+        extended = False
+        for (i, rep, must) in jobs:
+            if not must and not extended:
+                # the fixed stratum is done: whatever it cost, the sampled part gets at least a few seconds
+                extended = True
+                if deadline:
+                    deadline = max(deadline, time.time() + 5.0)
+            if deadline and time.time() > deadline and not must:
+                continue
             case = cases[i]
             rnd = random.Random("%d|%s|%d" % (seed, case_key(case), rep))
             # (ServiceRequestingTransport.auth_none raises TypeError by itself - finish_message=None is called -
